@@ -85,9 +85,10 @@ func sanitizersForAttributeValue(c context) ([]string, error) {
 			}
 		}
 	}
-	if sc0.isEnum() && (c.attr.value != "" || c.attr.ambiguousValue) {
+	if sc0.isEnum() && (c.attr.value != "" || c.attr.ambiguousValue || c.attr.dynamicStart) {
 		// An ambiguous value means that some branch of a conditional wrote static text before this
-		// action, even if the recorded value is empty.
+		// action, even if the recorded value is empty. dynamicStart means that an earlier action
+		// already wrote into this value: two allowed words would combine into one that is not.
 		return nil, fmt.Errorf("partial substitutions are disallowed in the %q attribute value context of a %q element", c.attr.name, c.element.name)
 	}
 	if sc0 == sanitizationContextStyle && c.attr.value != "" {
